@@ -1,6 +1,7 @@
 import Fips204.Impl.Encode
 import Fips204.Lemmas.Arith
 import Fips204.Props.C10
+import Fips204.Lemmas.KeyDecode
 /-!
 # C08 — signature and polynomial encodings are canonical
 
@@ -31,6 +32,14 @@ theorem sigDecode_z_in_range (m : Mode) (p : ParamSet) (sig cT : List Nat) (z h 
 
 /-- the three parameter sets satisfy the side condition -/
 theorem gamma1_fits : ∀ p ∈ [ml_dsa_44, ml_dsa_65, ml_dsa_87], 1 ≤ p.gamma1 ∧ p.gamma1 ≤ 2147483647 := by decide
+
+/-- `BitUnpack` never faults and returns exactly 256 coefficients, each from one bitlen-bit field; and when
+    `a + b + 1 = 2^bitlen` - every pair in use except (eta, eta) and (0, 43) - **every** byte string is accepted -/
+theorem bitUnpack_total_on_exact_pairs (m : Mode) (v : List Nat) (a b : Int) (bl : Nat) (ha : 0 ≤ a ∧ a < 1048576)
+    (hb : 1 ≤ b ∧ b < 1048576) (hbl : bitLen m (a + b) = .ok bl) (hbl2 : 1 ≤ bl ∧ bl ≤ 20) (hpow : a + b + 1 = 2 ^ bl)
+    (hv : ∀ x ∈ v, x < 256) (hlen : v.length = 32 * bl) :
+    ∃ w : List Int, bitUnpack m v a b = .ok (some w) ∧ w.length = 256 ∧ ∀ c ∈ w, -a ≤ c ∧ c ≤ b :=
+  bitUnpack_total m v a b bl ha hb hbl hbl2 hpow hv hlen
 
 /-- all hint sections of length omega + k over a byte alphabet -/
 def allStrings (alpha : List Nat) : Nat → List (List Nat)
